@@ -6,6 +6,8 @@ import GormModel.Model.ScanLoop
 import GormModel.Gen.ReadPathFacts
 import GormModel.Model.ScanPool
 import GormModel.Gen.ScanPoolFacts
+import GormModel.Model.ReadSelect
+import GormModel.Model.KeyCursor
 open Lean
 namespace Gorm.Drv
 namespace HC15
@@ -147,8 +149,59 @@ end HC15
 open HC15
 open Gorm.ScanLoop
 
+/-! ### round 4: SELECT resolution / key cursor -/
+
+def parseSelList (j : Json) : Option (Gorm.ReadSelect.SelList Nat) := do
+  let p ← jArr? j
+  match ← jStr? (arg p 0) with
+  | "star" => some .star
+  | "count" => some .count
+  | "list" => some (.list (← parseNats (arg p 1)))
+  | _ => none
+
+def parseSelCall (j : Json) : Option (Gorm.ReadSelect.SelCall Nat) := do
+  let p ← jArr? j
+  match ← jStr? (arg p 0) with
+  | "strings" => some (.strings (← (← jArr? (arg p 1)).toList.mapM parseNats))
+  | "expr" => some (.expr (← parseNats (arg p 1)))
+  | "clause" => some (.clause (← parseSelList (arg p 1)))
+  | _ => none
+
+def selListJ : Gorm.ReadSelect.SelList Nat → Json
+  | .star => Json.arr #[Json.str "star"]
+  | .count => Json.arr #[Json.str "count"]
+  | .list is => Json.arr #[Json.str "list", natListJ is]
+
+def parseKeyRows (j : Json) : Option (List (Nat × Nat)) := do
+  let a ← jArr? j
+  a.toList.mapM fun e => do
+    let p ← jArr? e
+    some (← jNat? (arg p 0), ← jNat? (arg p 1))
+
 def handleC15 (op : String) (args : Array Json) : Option Json := do
   match op with
+  | "sel.resolve" =>
+    -- select list of the query a finisher sends, for the chain's Select calls, under the REGENERATED add-variants
+    let calls ← (← jArr? (arg args 1)).toList.mapM parseSelCall
+    let fin ← jArr? (arg args 2)
+    let dest ← (match arg args 3 with | Json.null => some none | j => (parseNats j).map some)
+    let f := Gorm.ReadSelect.Facts.current
+    let st := Gorm.ReadSelect.SelState.calls ({} : Gorm.ReadSelect.SelState Nat) calls
+    match ← jStr? (arg fin 0) with
+    | "find" => some (selListJ (Gorm.ReadSelect.find f st dest))
+    | "pluck" => some (selListJ (Gorm.ReadSelect.pluck f st (← jNat? (arg fin 1))))
+    | "count" => some (selListJ (Gorm.ReadSelect.countQuery f st))
+    | "count+find" => some (selListJ (Gorm.ReadSelect.find f (Gorm.ReadSelect.afterCount f st) dest))
+    | _ => none
+  | "sel.facts" =>
+    some (Json.mkObj [("perColumn", Json.bool Gen.prepareValuesPerColumn), ("cursorFallback", Json.bool Gen.findInBatchesCursorFallback)])
+  | "keys.batches" =>
+    -- FindInBatches over (identity, cursor value) rows in delivery order; schema with / without prioritized primary field
+    let rows ← parseKeyRows (arg args 1)
+    let b ← jNat? (arg args 2)
+    let hasPrio ← jBool? (arg args 3)
+    let o := Gorm.KeyCursor.batchesK (Gorm.KeyCursor.cursorFor Gen.findInBatchesCursorFallback hasPrio) rows b (rows.length + 2) none
+    some (Json.mkObj [("batches", Json.arr (o.batches.map natListJ).toArray), ("pk", Json.bool o.pkRequired), ("fuel", Json.bool o.fuelOut)])
   | "c15.facts" =>
     -- the regenerated facts that select the transcription (the harness' generators stop avoiding a repaired pattern)
     some (Json.mkObj [("zeroLimitReturn", Json.bool Gen.findInBatchesZeroLimitReturn),
